@@ -25,9 +25,10 @@ const (
 	opStart = iota
 	opStop
 	opCancel
+	opSpawn
 )
 
-var opNames = []string{"Start", "Stop", "Cancel"}
+var opNames = []string{"Start", "Stop", "Cancel", "ActorOf"}
 
 type c07Result struct {
 	op      int
@@ -62,7 +63,11 @@ func c07(r *R, concurrent bool) {
 	nOps := 1 + r.Choose(4)
 	var ops []int
 	for i := 0; i < nOps; i++ {
-		ops = append(ops, r.Choose(3))
+		if concurrent && r.Chance(30) {
+			ops = append(ops, opSpawn) // ActorSystem.ActorOf from an outside goroutine, racing the other calls
+		} else {
+			ops = append(ops, r.Choose(3))
+		}
 	}
 	stopTimeout := []time.Duration{500 * time.Millisecond, 5 * time.Second, 30 * time.Second}[r.Choose(3)]
 	var names []string
@@ -81,7 +86,8 @@ func c07(r *R, concurrent bool) {
 			return
 		}
 		populated = true
-		spec := &Spec{Name: "p", Children: []*Spec{{Name: "c0"}, {Name: "c1", Children: []*Spec{{Name: "g"}}}}}
+		slowKill := func(ctx vivid.ActorContext, p *Probe) { vsimrt.Sleep(20 * time.Millisecond) } // keeps the ancestors in the killing state for a while
+		spec := &Spec{Name: "p", Children: []*Spec{{Name: "c0", OnKill: slowKill}, {Name: "c1", Children: []*Spec{{Name: "g", OnKill: slowKill}}}}}
 		if tree == 2 {
 			spec.Children[0].OnLaunch = func(ctx vivid.ActorContext, p *Probe) {
 				_ = ctx.Scheduler().Loop(ctx.Ref(), 200*time.Millisecond, w.NewCmd("loop", 0, nil))
@@ -116,6 +122,21 @@ func c07(r *R, concurrent bool) {
 			mu.Unlock()
 			r.Waiting("Stop() to return")
 			err = w.Sys.Stop(stopTimeout)
+			vsimrt.Yield()
+		case opSpawn:
+			mu.Lock()
+			st := started
+			mu.Unlock()
+			if st {
+				populate()
+				name := fmt.Sprintf("late%d", w.NewID())
+				if _, e := w.Spawn(&Spec{Name: name}); e == nil {
+					r.Count("top-level-ActorOf-from-outside")
+					mu.Lock()
+					spawnDoneStep = vsimrt.Step()
+					mu.Unlock()
+				}
+			}
 			vsimrt.Yield()
 		case opCancel:
 			mu.Lock()
@@ -231,6 +252,9 @@ func c07(r *R, concurrent bool) {
 		starts, stops := 0, 0
 		for i, res := range results {
 			n := errName(res.err)
+			if res.op == opSpawn {
+				continue
+			}
 			if strings.HasPrefix(n, "other") {
 				r.Fail("C07/undocumented-error", "call %d %s returned %v", i, opNames[res.op], res.err)
 				return
@@ -269,6 +293,20 @@ func c07(r *R, concurrent bool) {
 	mu.Lock()
 	st := started
 	mu.Unlock()
+	anyStopFailed := fin == "stop-failed"
+	mu.Lock()
+	for _, res := range results {
+		if res.op == opStop && errName(res.err) == "stop-failed" {
+			anyStopFailed = true
+		}
+	}
+	mu.Unlock()
+	if anyStopFailed {
+		// no actor of these trees takes longer than a few tens of simulated milliseconds to stop
+		r.Fail("C07/stop-timed-out", "Stop(%v) gave up with 'stop failed' although no actor blocks: the tree never finished terminating; live goroutines: %s", stopTimeout, describeLive(r.Sim.Live()))
+		w.DumpNotes(300)
+		return
+	}
 	if strings.HasPrefix(fin, "other") || fin == "already-started" {
 		r.Fail("C07/undocumented-error", "final Stop returned %v", err)
 		return
